@@ -39,6 +39,7 @@ func register(id, level string, cq, ct, fq, ft int, tq, tt time.Duration, run fu
 func init() {
 	register("C01", "exploration", 2, 8, 500, 5000, 4*time.Minute, 30*time.Minute, eng.RunGated)
 	register("C02", "exploration", 2, 8, 500, 5000, 4*time.Minute, 30*time.Minute, eng.RunGated)
+	register("C11", "exploration", 2, 8, 300, 5000, 4*time.Minute, 30*time.Minute, eng.RunCorr)
 }
 
 func verifDir() string {
